@@ -1047,6 +1047,10 @@ class Table(Vector):
 			if len(self.cols()) != len(other.cols()):
 				raise ValueError(f"Column count mismatch: {len(self.cols())} != {len(other.cols())}")
 			return self._named_like_self(tuple(x << y for x, y in zip(self.cols(), other.cols(), strict=True)))
+		if not isinstance(other, Iterable) or isinstance(other, (str, bytes, bytearray, Mapping)):
+			# (a string is one cell, a mapping has no column order: neither is a row of cells - zip would
+			# spread the characters / the KEYS over the columns)
+			raise SerifTypeError("Cannot append a scalar or a mapping to a table; give one item (or sequence of cells) per column.")
 		if len(self.cols()) != len(other):
 			raise ValueError(f"Column count mismatch: {len(self.cols())} != {len(other)}")
 		return self._named_like_self(tuple(x << y for x, y in zip(self.cols(), other, strict=True)))
@@ -1055,8 +1059,8 @@ class Table(Vector):
 		""" other << table (other is not a Vector): the items of other, one per column, come before the table's rows
 		(without this, Vector.__rlshift__ would splice the column vectors themselves into a flat vector)
 		"""
-		if not isinstance(other, Iterable) or isinstance(other, (str, bytes, bytearray)):
-			raise SerifTypeError("Cannot prepend a scalar to a table; give one item (or sequence of cells) per column.")
+		if not isinstance(other, Iterable) or isinstance(other, (str, bytes, bytearray, Mapping)):
+			raise SerifTypeError("Cannot prepend a scalar or a mapping to a table; give one item (or sequence of cells) per column.")
 		items = list(other)
 		if len(self.cols()) != len(items):
 			raise ValueError(f"Column count mismatch: {len(self.cols())} != {len(items)}")
